@@ -285,3 +285,19 @@ M('C18', 'canonical-metadata-from-argument-token-equiv?', ITS, '        let depl
   '        let deploy_salt = Self::canonical_token_deploy_salt(env, spender.clone());\n        let _ = token_address;\n\n        let token_id =\n            Self::deploy_remote_token', 'C18')
 M('C18', 'remote-moves-funds', ITS, '        InterchainTokenDeploymentStartedEvent {\n            token_id: token_id.clone(),\n            token_address,', '        token.transfer(&caller, &env.current_contract_address(), &1);\n        InterchainTokenDeploymentStartedEvent {\n            token_id: token_id.clone(),\n            token_address,', 'C18.R6')
 M('C18', 'remote-decimals-constant', ITS, '            decimals: token_metadata.decimal as u8,\n            minter: None,\n        });', '            decimals: 18,\n            minter: None,\n        });', 'C18.R5')
+
+# ---------------- C10 ----------------
+M('C10', 'decode-not-strict', ABI, '                let decoded = InterchainTransfer::abi_decode_params(&payload, true)', '                let decoded = InterchainTransfer::abi_decode_params(&payload, false)', 'C10.R1')
+M('C10', 'type-decode-not-strict', ABI, '    let message_type = MessageType::abi_decode(&payload[0..32], true)', '    let message_type = MessageType::abi_decode(&payload[0..32], false)', 'C10.R1')
+M('C10', 'encode-swaps-source-destination', ABI, '                sourceAddress: source_address.to_alloc_vec().into(),\n                destinationAddress: destination_address.to_alloc_vec().into(),', '                sourceAddress: destination_address.to_alloc_vec().into(),\n                destinationAddress: source_address.to_alloc_vec().into(),', 'C10.R3')
+M('C10', 'decode-swaps-name-symbol', ABI, '                    name: String::from_str(env, &decoded.name),\n                    symbol: String::from_str(env, &decoded.symbol),', '                    name: String::from_str(env, &decoded.symbol),\n                    symbol: String::from_str(env, &decoded.name),', 'C10.R3')
+M('C10', 'encode-wrong-tag', ABI, '                messageType: MessageType::DeployInterchainToken.into(),', '                messageType: MessageType::InterchainTransfer.into(),', 'C10.R2')
+M('C10', 'amount-no-high-check', ABI, '    ensure!(\n        i128::from_le_bytes(bytes_to_remove) == 0,\n        ContractError::InvalidAmount\n    );\n', '    let _ = bytes_to_remove;\n', 'C10.R5')
+M('C10', 'amount-no-sign-check', ABI, '    ensure!(i128_value >= 0, ContractError::InvalidAmount);\n', '', 'C10.R5')
+M('C10', 'amount-halves-swapped', ABI, '    bytes_to_convert.copy_from_slice(&slice[..16]);\n    bytes_to_remove.copy_from_slice(&slice[16..]);', '    bytes_to_convert.copy_from_slice(&slice[16..]);\n    bytes_to_remove.copy_from_slice(&slice[..16]);', 'C10.R5')
+M('C10', 'type-read-without-length-check', ABI, '    ensure!(\n        payload.len() >= 32,\n        ContractError::InsufficientMessageLength\n    );\n', '', 'C10.R6')
+M('C10', 'length-check-off-by-one', ABI, '        payload.len() >= 32,', '        payload.len() >= 31,', 'C10.R6')
+M('C10', 'decode-empty-data-as-some', ABI, '    if value.is_empty() {\n        None\n    } else {\n        Some(Bytes::from_slice(env, value))\n    }', '    Some(Bytes::from_slice(env, value))', 'C10.R8')
+M('C10', 'decoder-unwraps', ABI, '                let decoded = DeployInterchainToken::abi_decode_params(&payload, true)\n                    .map_err(|_| ContractError::AbiDecodeFailed)?;', '                let decoded = DeployInterchainToken::abi_decode_params(&payload, true).unwrap();', 'C10.R7')
+M('C10', 'sol-layout-fields-reordered', ABI, '        bytes sourceAddress;\n        bytes destinationAddress;\n        uint256 amount;', '        bytes destinationAddress;\n        bytes sourceAddress;\n        uint256 amount;', 'C10.R4')
+M('C10', 'sol-tags-reordered', ABI, '        SendToHub,\n        ReceiveFromHub\n    }', '        ReceiveFromHub,\n        SendToHub\n    }', 'C10.R4')
